@@ -197,14 +197,31 @@ class VtsHarness:
             v = a[-1] if a else kwargs.get("value")
             if isinstance(v, float) and v == int(v):
                 v = int(v)
-            return v  # A-time: exact conversions between representations of the same instant / span
+            # A-time: exact conversions between representations of the same instant / span - WHICH representation comes out is kept as a tag
+            rep = {"Scheduler.to_datetime": "datetime", "Scheduler.to_seconds": "num", "Scheduler.to_timedelta": "span"}[fn.qualname]
+            try:
+                return SV(it.to_int(v), "int", tag=rep)
+            except Unsupported:
+                return v
         return NOTSET
+
+    def on_attr_write(self, it, obj, name, old, new):
+        """the clock keeps its representation: a tick clock stays a number, a datetime clock a datetime (what is known about the value that is
+        stored comes from the conversion that produced it: to_seconds / to_datetime, and instant +- span)"""
+        obj.fields[name] = new
+        if obj is self.obj and name == "_clock":
+            tg = getattr(new, "tag", None)
+            if (tg == "datetime" and not self.is_datetime) or (tg == "num" and self.is_datetime):
+                self.clock_rep_breaks.append(f"a {'number of seconds' if tg == 'num' else 'datetime'} is stored into the "
+                                             f"{'datetime' if self.is_datetime else 'tick (numeric)'} clock")
 
     # -- environment -------------------------------------------------------------------------------
     def setup(self, ctx):
         w = self.w = VtsWorld(self)
         it = Interp(self.loader, ctx, w)
         it.call_hook = self.hook
+        it.attr_write_hook = self.on_attr_write
+        self.clock_rep_breaks = []
         self.actions_may_sleep = True
         self.clock_at_loop_exit = None
         self.loop_entered = False
@@ -337,6 +354,7 @@ class VtsHarness:
                 self.rec(ctx, uid + "/iteration/the-loop-moves-the-clock-only-to-a-due-time-within-the-target",
                          z3.Or(self.clock_term(it) == clock0, z3.And(self.clock_term(it) == due, due <= target)))
         self.rec(ctx, uid + "/iteration/lock-free-at-loop-head", all(d == 0 for d in w.depth.values()))
+        self.rec(ctx, uid + "/iteration/the-clock-keeps-its-representation", not self.clock_rep_breaks, detail="; ".join(self.clock_rep_breaks[:3]))
         raise PathEnd()
 
     # -- scenarios ---------------------------------------------------------------------------------
@@ -367,6 +385,7 @@ class VtsHarness:
         acts = [ev for ev in w.log if ev[0] == "action"]
         clock1 = self.clock_term(it)
         rname = raised.cls.name if isinstance(raised, Obj) else None
+        self.rec(ctx, uid + "/the-clock-keeps-its-representation", not self.clock_rep_breaks, detail="; ".join(self.clock_rep_breaks[:3]))
         if mname in ("start",):
             self.rec(ctx, uid + "/returns-normally", raised is None, detail=f"raised {rname}")
         if mname in ("start", "advance_to", "advance_by"):
